@@ -51,20 +51,24 @@ fn child() -> i32 {
             let (idx, len, nmut): (usize, usize, usize) = (f[1].parse().unwrap(), f[2].parse().unwrap(), f[3].parse().unwrap());
             let mut data = vec![0u8; len];
             inp.read_exact(&mut data).unwrap();
-            let mut muts: Vec<(usize, usize, bool, u64)> = Vec::with_capacity(nmut);
+            // off width big_endian value del_from del_to cut: write the value, delete [del_from, del_to), keep the first `cut` bytes (0: all)
+            let mut muts: Vec<(usize, usize, bool, u64, usize, usize, usize)> = Vec::with_capacity(nmut);
             for _ in 0..nmut { let mut l = String::new(); inp.read_line(&mut l).unwrap(); let g: Vec<&str> = l.trim().split(' ').collect();
-                muts.push((g[0].parse().unwrap(), g[1].parse().unwrap(), g[2] == "1", g[3].parse().unwrap())); }
+                muts.push((g[0].parse().unwrap(), g[1].parse().unwrap(), g[2] == "1", g[3].parse().unwrap(), g[4].parse().unwrap(), g[5].parse().unwrap(), g[6].parse().unwrap())); }
             let rss0 = hwm_kb().max(rss_kb());
             let bound_us = 4_000_000 + 60 * len as u128;
             let (mut n_panic, mut n_slow, mut max_us) = (0usize, 0usize, 0u128);
             let mut o = out.lock();
-            for (k, (off, w, be, val)) in muts.iter().enumerate() {
+            for (k, (off, w, be, val, da, db, cut)) in muts.iter().enumerate() {
                 writeln!(o, "AT {} {}", idx, k).unwrap(); o.flush().unwrap();
                 let saved: Vec<u8> = data[*off..*off + *w].to_vec();
                 if *w > 0 { fields::wr(&mut data, *off, *w, *be, *val); }
+                let structural: Option<Vec<u8>> = if da < db || *cut > 0 { let mut v = data.clone(); if da < db { v.drain(*da..*db); } if *cut > 0 { v.truncate(*cut); } Some(v) } else { None };
+                let input: &[u8] = structural.as_deref().unwrap_or(&data);
                 let t = Instant::now();
-                let r = catch(AssertUnwindSafe(|| { let m = yara_x::mods::invoke_all(&data); drop(m); }));
+                let r = catch(AssertUnwindSafe(|| { let m = yara_x::mods::invoke_all(input); drop(m); }));
                 let us = t.elapsed().as_micros();
+                drop(structural);
                 data[*off..*off + *w].copy_from_slice(&saved);
                 max_us = max_us.max(us);
                 match r {
@@ -395,6 +399,7 @@ fn build_corpus(samples: &[(String, Vec<u8>)], rng: &mut Rng, n_trunc: usize, n_
     }
     for e in bomb { v.push(Input { label: format!("rsrc-self-reference:e={}", e), class: "self-referential-table", data: rsrc_bomb(*e), max_exports: None }); }
     v.extend(trie_inputs(rng, n_trunc > 32));
+    v.extend(amplification_inputs(n_trunc > 32));
     // OLE/CF: FAT entries rewired into cycles / joins
     for (name, d) in samples.iter().filter(|(_, d)| d.starts_with(&[0xd0, 0xcf, 0x11, 0xe0]) && d.len() > 1024) {
         let ssz = 1usize << (le16(d, 0x1e).unwrap_or(9).min(12) as usize);
@@ -486,9 +491,122 @@ fn run_one(kid: &mut Option<Kid>, idx: usize, data: &[u8], limit: Duration) -> R
 }
 
 
+
+// ---------------------------------------------------------------- amplification: N references to ONE large item
+/// DEX: one `strlen`-byte string, one type, one proto whose type list has `n_params` entries of that
+/// type, `n_methods` method_ids using that proto (every method carries a copy of the whole proto)
+fn dex_methods_bomb(n_methods: u32, n_params: u32, strlen: usize) -> Vec<u8> {
+    let mut f = vec![0u8; 0x70];
+    let string_ids_off = 0x70u32; let type_ids_off = string_ids_off + 4; let proto_ids_off = type_ids_off + 4;
+    let method_ids_off = proto_ids_off + 12; let type_list_off = method_ids_off + 8 * n_methods;
+    let string_data_off = (type_list_off + 4 + 2 * n_params + 3) & !3;
+    f.extend_from_slice(&string_data_off.to_le_bytes());
+    f.extend_from_slice(&0u32.to_le_bytes());
+    for v in [0u32, 0, type_list_off] { f.extend_from_slice(&v.to_le_bytes()); }
+    for _ in 0..n_methods { f.extend_from_slice(&[0u8; 8]); }
+    f.extend_from_slice(&n_params.to_le_bytes());
+    for _ in 0..n_params { f.extend_from_slice(&0u16.to_le_bytes()); }
+    while (f.len() as u32) < string_data_off { f.push(0); }
+    f.extend_from_slice(&enc_uleb(strlen as u64));
+    f.extend(std::iter::repeat(b'A').take(strlen)); f.push(0);
+    let file_size = f.len() as u32;
+    f[0..8].copy_from_slice(b"dex\n035\0");
+    for (o, v) in [(0x20usize, file_size), (0x24, 0x70), (0x28, 0x12345678), (0x38, 1), (0x3c, string_ids_off), (0x40, 1), (0x44, type_ids_off), (0x48, 1), (0x4c, proto_ids_off), (0x58, n_methods), (0x5c, method_ids_off)] {
+        f[o..o + 4].copy_from_slice(&v.to_le_bytes());
+    }
+    f
+}
+/// ELF64 with `n` PT_DYNAMIC program headers that all cover the same `m` (tag, value) pairs
+fn elf_dynamic_bomb(n: u16, m: usize) -> Vec<u8> {
+    let mut f = b"\x7fELF\x02\x01\x01\x00".to_vec(); f.extend_from_slice(&[0u8; 8]);
+    for (v, w) in [(2u64, 2), (62, 2), (1, 4), (0, 8), (64, 8), (0, 8), (0, 4), (64, 2), (56, 2), (n as u64, 2), (64, 2), (0, 2), (0, 2)] { f.extend_from_slice(&v.to_le_bytes()[..w]); }
+    let dyn_off = 64 + 56 * n as u64;
+    for _ in 0..n { f.extend_from_slice(&2u32.to_le_bytes()); f.extend_from_slice(&0u32.to_le_bytes()); for v in [dyn_off, 0, 0, (m * 16) as u64, (m * 16) as u64, 8] { f.extend_from_slice(&v.to_le_bytes()); } }
+    for i in 0..m { f.extend_from_slice(&((i + 1) as u64).to_le_bytes()); f.extend_from_slice(&0u64.to_le_bytes()); }
+    f
+}
+/// ZIP with one deflated member `name` that inflates to `mib` MiB of zeros
+fn zip_deflate_bomb(name: &[u8], mib: usize) -> Vec<u8> {
+    use std::io::Write as _;
+    let mut enc = flate2::write::DeflateEncoder::new(Vec::new(), flate2::Compression::default());
+    let chunk = vec![0u8; 1 << 20];
+    for _ in 0..mib { enc.write_all(&chunk).unwrap(); }
+    let body = enc.finish().unwrap();
+    let usize_ = (mib as u64) << 20;
+    let mut d = vec![];
+    d.extend_from_slice(b"PK\x03\x04"); for v in [20u16, 0, 8, 0x6000, 0x5821] { d.extend_from_slice(&v.to_le_bytes()); }
+    for v in [0u32, body.len() as u32, usize_ as u32] { d.extend_from_slice(&v.to_le_bytes()); }
+    d.extend_from_slice(&(name.len() as u16).to_le_bytes()); d.extend_from_slice(&0u16.to_le_bytes()); d.extend_from_slice(name); d.extend_from_slice(&body);
+    let cdo = d.len() as u32;
+    d.extend_from_slice(b"PK\x01\x02"); for v in [0x031eu16, 20, 0, 8, 0x6000, 0x5821] { d.extend_from_slice(&v.to_le_bytes()); }
+    for v in [0u32, body.len() as u32, usize_ as u32] { d.extend_from_slice(&v.to_le_bytes()); }
+    for v in [name.len() as u16, 0, 0, 0, 0] { d.extend_from_slice(&v.to_le_bytes()); }
+    d.extend_from_slice(&0u32.to_le_bytes()); d.extend_from_slice(&0u32.to_le_bytes()); d.extend_from_slice(name);
+    let cdl = d.len() as u32 - cdo;
+    d.extend_from_slice(b"PK\x05\x06"); for v in [0u16, 0, 1, 1] { d.extend_from_slice(&v.to_le_bytes()); }
+    d.extend_from_slice(&cdl.to_le_bytes()); d.extend_from_slice(&cdo.to_le_bytes()); d.extend_from_slice(&0u16.to_le_bytes());
+    d
+}
+/// OLE/CF (512-byte sectors) whose directory chain runs through `n` sectors: FAT entry i -> i + 1
+fn olecf_long_directory_chain(n: usize) -> Vec<u8> {
+    let per = 128usize; // FAT entries per sector
+    let nfat = (n + per - 1) / per + 1;
+    let total = nfat + n;
+    let mut d = vec![0u8; 512 * (1 + total)];
+    d[..8].copy_from_slice(&[0xd0, 0xcf, 0x11, 0xe0, 0xa1, 0xb1, 0x1a, 0xe1]);
+    for (o, v) in [(0x18usize, 0x3eu16), (0x1a, 3), (0x1c, 0xfffe), (0x1e, 9), (0x20, 6)] { d[o..o + 2].copy_from_slice(&v.to_le_bytes()); }
+    for (o, v) in [(0x2cusize, nfat as u32), (0x30, nfat as u32), (0x38, 0x1000), (0x3c, 0xffff_fffe), (0x40, 0), (0x44, 0xffff_fffe), (0x48, 0)] { d[o..o + 4].copy_from_slice(&v.to_le_bytes()); }
+    for i in 0..109 { let v: u32 = if i < nfat { i as u32 } else { 0xffff_ffff }; d[0x4c + 4 * i..0x50 + 4 * i].copy_from_slice(&v.to_le_bytes()); }
+    let fat = |d: &mut Vec<u8>, i: usize, v: u32| { let o = 512 + 4 * i; if o + 4 <= 512 * (1 + nfat.min(109)) { d[o..o + 4].copy_from_slice(&v.to_le_bytes()); } };
+    for i in 0..nfat { fat(&mut d, i, 0xffff_fffd); }
+    for i in 0..n { let s = nfat + i; fat(&mut d, s, if i + 1 < n { (s + 1) as u32 } else { 0xffff_fffe }); }
+    // root entry in the first directory sector
+    let r = 512 * (1 + nfat);
+    for (i, c) in "Root Entry".encode_utf16().enumerate() { d[r + 2 * i..r + 2 * i + 2].copy_from_slice(&c.to_le_bytes()); }
+    d[r + 0x40..r + 0x42].copy_from_slice(&22u16.to_le_bytes()); d[r + 0x42] = 5; d[r + 0x43] = 1;
+    for o in [0x44usize, 0x48, 0x4c] { d[r + o..r + o + 4].copy_from_slice(&0xffff_ffffu32.to_le_bytes()); }
+    d[r + 0x74..r + 0x78].copy_from_slice(&0xffff_fffeu32.to_le_bytes());
+    d
+}
+fn amplification_inputs(big: bool) -> Vec<Input> {
+    let mut v = vec![];
+    let mut add = |label: String, class: &'static str, data: Vec<u8>| v.push(Input { label, class, data, max_exports: None });
+    for (m, p, l) in if big { vec![(50u32, 16u32, 4000usize), (200, 255, 60_000), (2000, 255, 20_000), (400, 64, 200_000)] } else { vec![(50, 16, 4000), (200, 255, 60_000)] } {
+        add(format!("dex-methods:methods={},params={},string={}", m, p, l), "amplification:dex-methods-share-one-proto", dex_methods_bomb(m, p, l));
+    }
+    for (n, m) in if big { vec![(8u16, 100usize), (400, 2000), (1000, 5000), (2000, 20_000)] } else { vec![(8, 100), (400, 2000), (1500, 12_000)] } {
+        add(format!("elf-pt-dynamic:headers={},pairs={}", n, m), "amplification:elf-pt-dynamic-share-one-table", elf_dynamic_bomb(n, m));
+    }
+    for mib in if big { vec![4usize, 512, 1024] } else { vec![4, 512] } {
+        add(format!("zip-deflate:vbaProject.bin={}MiB", mib), "amplification:zip-deflated-member", zip_deflate_bomb(b"word/vbaProject.bin", mib));
+    }
+    for n in if big { vec![2000usize, 13_000] } else { vec![2000] } { add(format!("olecf-directory-chain:sectors={}", n), "amplification:olecf-directory-chain", olecf_long_directory_chain(n)); }
+    add("macho-fixups-names:n=65536,l=4095".into(), "amplification:macho-fixups-share-one-name", macho_fixups_bomb(65536, 4095));
+    add("macho-symtab-names:n=65536,l=4095".into(), "amplification:macho-symtab-share-one-name", macho_symtab_bomb(65536, 4095));
+    add("elf-symbol-names:n=65536,l=4095".into(), "amplification:elf-symbols-share-one-name", elf_names_bomb(65536, 4095));
+    v
+}
+
 // ---------------------------------------------------------------- boundary sweeps
 /// one mutation of a carrier: the field at `off` (width `w`) set to `val`; w = 0 is the carrier itself
-struct Mutn { off: usize, w: usize, be: bool, val: u64, what: String }
+#[derive(Clone, Default)]
+struct Mutn { off: usize, w: usize, be: bool, val: u64, del: (usize, usize), cut: usize, what: String }
+impl Mutn {
+    fn value(off: usize, w: usize, be: bool, val: u64, what: &str) -> Mutn { Mutn { off, w, be, val, what: what.to_string(), ..Default::default() } }
+    fn apply(&self, d: &[u8]) -> Vec<u8> {
+        let mut v = d.to_vec();
+        if self.w > 0 { fields::wr(&mut v, self.off, self.w, self.be, self.val); }
+        if self.del.0 < self.del.1 { v.drain(self.del.0..self.del.1); }
+        if self.cut > 0 { v.truncate(self.cut); }
+        v
+    }
+    fn describe(&self) -> String {
+        let mut t = if self.w > 0 { format!("{}@{:#x}/{}={:#x}", self.what, self.off, self.w, self.val) } else { self.what.clone() };
+        if self.del.0 < self.del.1 { t.push_str(&format!(" delete[{:#x}..{:#x})", self.del.0, self.del.1)); }
+        if self.cut > 0 { t.push_str(&format!(" keep[..{:#x})", self.cut)); }
+        t
+    }
+}
 struct Carrier { label: String, fmt: String, mode: &'static str, data: std::sync::Arc<Vec<u8>>, muts: Vec<Mutn> }
 #[derive(Default)]
 struct SweepRes { done: usize, fails: Vec<(usize, String, String)>, max_us: u128, rss_kb: u64 }
@@ -502,7 +620,7 @@ fn run_sweep(kid: &mut Option<Kid>, idx: usize, c: &Carrier, limit: Duration) ->
         let part = &c.muts[from..];
         let mut msg = format!("SWEEP {} {} {}\n", idx, c.data.len(), part.len()).into_bytes();
         msg.extend_from_slice(&c.data);
-        for m in part { msg.extend_from_slice(format!("{} {} {} {}\n", m.off, m.w, m.be as u8, m.val).as_bytes()); }
+        for m in part { msg.extend_from_slice(format!("{} {} {} {} {} {} {}\n", m.off, m.w, m.be as u8, m.val, m.del.0, m.del.1, m.cut).as_bytes()); }
         // written from a thread: the child answers while it is still reading
         let mut si = k.child.stdin.take().unwrap();
         let wt = std::thread::spawn(move || { let r = si.write_all(&msg).and_then(|_| si.flush()); (si, r) });
@@ -555,6 +673,46 @@ fn synth_zip() -> Vec<u8> {
     d
 }
 
+/// mutations of the STRUCTURE around the located fields and tags (values are swept elsewhere):
+/// (1) the file ends at / in the middle of / 0..3 bytes behind every field;
+/// (2) a structure ends there: every size field is set so that its structure ends at / in / behind every field inside it;
+/// (3) the next structure starts there: for every pointer field, the bytes between a preceding field (or tag) and
+///     the pointer's target are deleted and the pointer is adjusted, so that the target starts right behind that field.
+fn structural_mutations(d: &[u8], found: &fields::Found, wanted: &dyn Fn(&str) -> bool, muts: &mut Vec<Mutn>) {
+    let len = d.len();
+    let ends = |f: &fields::Field| -> Vec<usize> { let (o, w) = (f.off, f.w as usize); let mut v = vec![o, o + w, o + w + 1, o + w + 2, o + w + 3]; if w >= 2 { v.push(o + w / 2); } v };
+    let mut seen = std::collections::HashSet::new();
+    for f in found.fields.iter().filter(|f| wanted(&f.what)) {
+        for c in ends(f) { if c > 0 && c < len && seen.insert(c) { muts.push(Mutn { cut: c, what: format!("file-ends-at:{}", f.what), ..Default::default() }); } }
+    }
+    for s in &found.sized {
+        let cur = fields::rd(d, s.off, s.w as usize, s.be).unwrap_or(0) as usize;
+        let what = found.fields.iter().find(|f| f.off == s.off).map(|f| f.what.clone()).unwrap_or_default();
+        // a (size field, inner field) pair is wanted when either of them is of a kind not covered by an earlier carrier
+        let end = s.start.saturating_add(cur);
+        let mut vals = std::collections::BTreeSet::new();
+        for f in found.fields.iter().filter(|f| f.off >= s.start && f.off < end.saturating_add(8) && (wanted(&what) || wanted(&f.what))).take(48) { for c in ends(f) { if c >= s.start { vals.insert((c - s.start) as u64); } } }
+        let max = if s.w >= 8 { u64::MAX } else { (1u64 << (8 * s.w)) - 1 };
+        for v in vals { if v != cur as u64 && v <= max { muts.push(Mutn::value(s.off, s.w as usize, s.be, v, &format!("structure-ends-at-a-field:{}", what))); } }
+    }
+    for p in &found.ptrs {
+        let cur = fields::rd(d, p.off, p.w as usize, p.be).unwrap_or(0);
+        let t = p.target;
+        let mut cuts = std::collections::BTreeSet::new();
+        if wanted(&p.what) { for k in 1..=8usize { if t > k { cuts.insert(t - k); } } }
+        for f in found.fields.iter().filter(|f| f.off + (f.w as usize) <= t && f.off + 4096 >= t && (wanted(&p.what) || wanted(&f.what))) { for c in ends(f) { cuts.insert(c); } }
+        let mut n = 0;
+        for c in cuts.into_iter().rev() {
+            // the deleted range must not contain the pointer itself and must stay inside what the pointer's mapping covers
+            if c >= t || c < p.min_cut.max(1) || (p.off < t && p.off + p.w as usize > c) { continue; }
+            let delta = (t - c) as u64;
+            if cur < delta { continue; }
+            muts.push(Mutn { off: p.off, w: p.w as usize, be: p.be, val: cur - delta, del: (c, t), cut: 0, what: format!("target-moved-behind-a-field:{}", p.what) });
+            n += 1; if n >= 48 { break; }
+        }
+    }
+}
+
 /// carriers for the boundary sweeps.  `all`: every repository sample as it is (time and memory bound on the
 /// samples themselves).  `structured`: per format, samples chosen so that every kind of field the readers of
 /// c11/fields.rs know is present in at least one of them; every such field is set to every boundary value.
@@ -563,7 +721,7 @@ fn build_carriers(all: &[(String, Vec<u8>)], rng: &mut Rng, per_dir: usize, smal
     let mut v: Vec<Carrier> = vec![];
     let mut samples: Vec<(String, std::sync::Arc<Vec<u8>>)> = all.iter().map(|(n, d)| (n.clone(), std::sync::Arc::new(d.clone()))).collect();
     samples.push(("synthetic/zip".to_string(), std::sync::Arc::new(synth_zip())));
-    for (n, d) in &samples { v.push(Carrier { label: n.clone(), fmt: "any".into(), mode: "sample", data: d.clone(), muts: vec![Mutn { off: 0, w: 0, be: false, val: 0, what: "unmodified".into() }] }); }
+    for (n, d) in &samples { v.push(Carrier { label: n.clone(), fmt: "any".into(), mode: "sample", data: d.clone(), muts: vec![Mutn::value(0, 0, false, 0, "unmodified")] }); }
     // structured: greedy cover of the field kinds per directory, smallest samples first
     let mut by_dir: std::collections::BTreeMap<String, Vec<usize>> = Default::default();
     for (i, (n, _)) in samples.iter().enumerate() { by_dir.entry(n.split('/').next().unwrap_or("").to_string()).or_default().push(i); }
@@ -582,8 +740,9 @@ fn build_carriers(all: &[(String, Vec<u8>)], rng: &mut Rng, per_dir: usize, smal
             let mut muts = vec![];
             for f in found.fields.iter().filter(|f| use_all || !covered.contains(&f.what)) {
                 let cur = fields::rd(d, f.off, f.w as usize, f.be).unwrap_or(0);
-                for val in fields::values(f, cur, d.len(), &found.dict, f.hot) { muts.push(Mutn { off: f.off, w: f.w as usize, be: f.be, val, what: f.what.clone() }); }
+                for val in fields::values(f, cur, d.len(), &found.dict, f.hot) { muts.push(Mutn::value(f.off, f.w as usize, f.be, val, &f.what)); }
             }
+            structural_mutations(d, &found, &|w: &str| use_all || !covered.contains(w), &mut muts);
             for f in &found.fields { covered.insert(f.what.clone()); }
             structured.push(Carrier { label: n.clone(), fmt: found.fmt.to_string(), mode: "structured", data: d.clone(), muts });
             taken += 1;
@@ -599,7 +758,7 @@ fn build_carriers(all: &[(String, Vec<u8>)], rng: &mut Rng, per_dir: usize, smal
                 if off + w > d.len() { continue; }
                 let f = fields::Field { off, w: w as u8, be: false, what: format!("offset.u{}", 8 * w), hot: false };
                 let cur = fields::rd(d, off, w, false).unwrap_or(0);
-                for val in fields::values(&f, cur, d.len(), &[], false) { muts.push(Mutn { off, w, be: false, val, what: f.what.clone() }); }
+                for val in fields::values(&f, cur, d.len(), &[], false) { muts.push(Mutn::value(off, w, false, val, &f.what)); }
             }
         }
         exhaustive.push(Carrier { label: n.clone(), fmt, mode: "exhaustive", data: d.clone(), muts });
@@ -819,7 +978,7 @@ fn run(args: &[String]) -> i32 {
             if fails.is_empty() && r.rss_kb > bound_kb { fails.push((0, "memory".into(), format!("{}", r.rss_kb))); }
             let n_bad = fails.len().min(n);
             distinct.insert(fnv64(c.label.as_bytes()) ^ n as u64);
-            let first = fails.first().map(|(k, kind, det)| { let m = &c.muts[(*k).min(n - 1)]; format!("{}@{:#x}/{}={:#x} {} {}", m.what, m.off, m.w, m.val, kind, det) }).unwrap_or_default();
+            let first = fails.first().map(|(k, kind, det)| { let m = &c.muts[(*k).min(n - 1)]; format!("{} {} {}", m.describe(), kind, det) }).unwrap_or_default();
             shards.push(format!("KSweep {} {} {}", coq_z(n as i128), coq_z(r.done as i128), coq_z((n - n_bad) as i128)),
                 format!("{{\"kind\":\"sweep\",\"index\":{},\"label\":{},\"mode\":\"{}\",\"format\":\"{}\",\"len\":{},\"mutations\":{},\"failures\":{},\"first_failure\":{},\"max_us\":{},\"bound_us\":{},\"rss_growth_kb\":{}}}",
                     idx, json_str(&c.label), c.mode, c.fmt, c.data.len(), n, fails.len(), json_str(&first), r.max_us, bound_us, r.rss_kb));
@@ -829,13 +988,13 @@ fn run(args: &[String]) -> i32 {
                 let m = &c.muts[(*k).min(n - 1)];
                 stats.inc(&format!("sweep:fail:{}", kind));
                 if !kinds.insert(format!("{}:{}", m.what, kind)) || kinds.len() > 12 { continue; }
-                let mut d = (*c.data).clone(); if m.w > 0 { fields::wr(&mut d, m.off, m.w, m.be, m.val); }
+                let d = m.apply(&c.data);
                 let fidx = idx * 1000 + kinds.len();
                 let _ = std::fs::write(Path::new(&out_dir).join(format!("failing_{}.bin", fidx)), &d);
                 let class = if c.mode == "sample" { "repository-sample".to_string() } else { format!("boundary:{}:{}", c.fmt, m.what) };
                 shards.push(format!("KRun {} true {}", coq_bool(kind == "slow" || kind == "memory"), coq_bool(kind != "slow" && kind != "memory")),
                     format!("{{\"kind\":\"run\",\"index\":{},\"label\":{},\"class\":\"{}\",\"len\":{},\"status\":\"{}\",\"fail\":\"{}\",\"field\":\"{}\",\"offset\":{},\"width\":{},\"big_endian\":{},\"value\":{},\"detail\":{},\"data_hex_prefix\":\"{}\"}}",
-                        fidx, json_str(&format!("{}|{}@{:#x}/{}={:#x}", c.label, m.what, m.off, m.w, m.val)), class, d.len(), kind, kind, m.what, m.off, m.w, m.be, m.val, json_str(det), hex(&d[..d.len().min(64)])));
+                        fidx, json_str(&format!("{}|{}", c.label, m.describe())), class, d.len(), kind, kind, m.what, m.off, m.w, m.be, m.val, json_str(det), hex(&d[..d.len().min(64)])));
             }
         }
         stats.add("sweep:wall_ms", t_sweeps.elapsed().as_millis() as u64);
